@@ -419,7 +419,10 @@ class Check:
             # theorems of statement files that did build still count as discharged
             self.discharged = []
             for pf in pfs:
-                if os.path.exists(os.path.join(COQ, "props", pf + "o")) and ("props/" + pf) not in failed_files:
+                # up to date w.r.t. everything it depends on (a stale .vo whose dependency failed to build does not count:
+                # scratch trees start from the main tree's compiled files)
+                fresh = sh(["make", "-q", "props/" + pf + "o"], cwd=COQ, timeout=300)[0] == 0
+                if fresh and os.path.exists(os.path.join(COQ, "props", pf + "o")) and ("props/" + pf) not in failed_files:
                     ax, _ = print_assumptions(pf)
                     if ax is not None:
                         self.discharged += count_obligations(pf)
